@@ -301,7 +301,12 @@ RESET_TIMER:
 		if len(s.bufptr) > 0 {
 			n = copy(b, s.bufptr)
 			s.bufptr = s.bufptr[n:]
+			more := len(s.bufptr) > 0 || s.kcp.PeekSize() > 0
 			s.mu.Unlock()
+			if more {
+				// the wake-up token was consumed by this call: pass it on to the next reader
+				s.notifyReadEvent()
+			}
 			atomic.AddUint64(&DefaultSnmp.BytesReceived, uint64(n))
 			return n, nil
 		}
@@ -311,7 +316,11 @@ RESET_TIMER:
 			// from kcp.recv() to 'b', like 'DMA'.
 			if len(b) >= size {
 				s.kcp.Recv(b)
+				more := s.kcp.PeekSize() > 0
 				s.mu.Unlock()
+				if more {
+					s.notifyReadEvent()
+				}
 				atomic.AddUint64(&DefaultSnmp.BytesReceived, uint64(size))
 				return size, nil
 			}
@@ -328,8 +337,12 @@ RESET_TIMER:
 			s.kcp.Recv(s.recvbuf)    // read data to recvbuf first
 			n = copy(b, s.recvbuf)   // then copy bytes to 'b' as many as possible
 			s.bufptr = s.recvbuf[n:] // pointer update
+			more := len(s.bufptr) > 0 || s.kcp.PeekSize() > 0
 
 			s.mu.Unlock()
+			if more {
+				s.notifyReadEvent()
+			}
 			atomic.AddUint64(&DefaultSnmp.BytesReceived, uint64(n))
 			return n, nil
 		}
@@ -421,7 +434,12 @@ RESET_TIMER:
 				// we don't have to wait until the periodical update() procedure uncorks.
 				s.kcp.flush(IKCP_FLUSH_FULL)
 			}
+			more := s.kcp.WaitSnd() < int(s.kcp.snd_wnd)
 			s.mu.Unlock()
+			if more {
+				// the wake-up token was consumed by this call: pass it on to the next writer
+				s.notifyWriteEvent()
+			}
 			atomic.AddUint64(&DefaultSnmp.BytesSent, uint64(n))
 			return n, nil
 		}
